@@ -18,7 +18,7 @@ def long_jobs(exe, tier):
     js = []
     q = tier == "quick"
     first = True
-    for tbuf in ((1, 4) if q else (1, 2, 4)):
+    for tbuf in ((1, 4) if q else (1, 2, 3, 4)):
         for soft, hard in (((1, 1), (2, 4), (1, 8)) if q else ((1, 1), (1, 2), (2, 4), (4, 8), (1, 8), (8, 8))):
             for cadence in (0, 1, 3, 7):
                 for polls in ((1,) if q else (1, 2)):
